@@ -234,13 +234,15 @@ def case_replay(ctx, spec):
     except Exception as e:
         raise Discard("get_transactions raised (report sub's business)")
     ap = agg_by_name(bt, s, "positions")
-    # netted trades: spread paid but no net quantity
+    # netted trades: spread paid but no net quantity in that ticker on that date (opposite trades of two sub-strategies sharing it, or a
+    # round trip within the date) - the transaction list has no row that could carry that spread (open finding F29)
+    netted = False
     if s._bidoffer_set:
         abo = agg_by_name(bt, s, "bidoffers_paid")
         for nm in ap:
             dq = np.diff(ap[nm], prepend=0.0)
             if ((np.abs(abo[nm]) > 1e-12) & (np.abs(dq) < 1e-12)).any():
-                raise Discard("offsetting trades on one date")
+                netted = True
     data = interp.mk_data(src)
     flows = np.asarray(s.flows, dtype=float)
     kids = [bt.core.Security(nm, multiplier=list(mult[nm])[0]) for nm in sorted(ap)]
@@ -267,13 +269,29 @@ def case_replay(ctx, spec):
     RV = np.asarray(rb.strategy.values, dtype=float)
     if not np.allclose(V, RV, rtol=1e-9, atol=1e-6):
         i = int(np.argmax(~np.isclose(V, RV, rtol=1e-9, atol=1e-6)))
-        raise Violation("replay: root value on row %d is %r, source run had %r (difference %r)" % (i, RV[i], V[i], RV[i] - V[i]), signature="c18:replay-values")
-    labs = gen.spec_labels(src)
+        raise Violation("replay: root value on row %d is %r, source run had %r (difference %r)%s" % (i, RV[i], V[i], RV[i] - V[i], " [same-date trades netting to zero in one ticker paid a spread]" if netted else ""), signature="c18:replay-values" + (":netted" if netted else ""))
+    labs = gen.spec_labels(src) + (["netted_same_date_trades"] if netted else []) + (["two_step_stack"] if spec.get("two_step") else [])
     return {"nontrivial": len(tx) >= 2 and (bool(src.get("bidoffer")) or "nested" in labs), "labels": labs}
 
 
-def replay_spec():
-    return gen.backtest_spec(max_dates=12, allow_risk=False)
+@st.composite
+def replay_spec(draw):
+    spec = draw(gen.backtest_spec(max_dates=12, allow_risk=False))
+    if draw(st.integers(0, 7)) == 0 and "children" not in spec["tree"] or (draw(st.integers(0, 15)) == 0 and not any(isinstance(c, dict) and "name" in c for c in spec["tree"].get("children") or [])):
+        # a stack that trades in two steps on one date: the second step may undo (part of) the first, e.g. buy a ticker and sell it again
+        tick = sorted(t for t, v in spec["prices"].items() if all(x is not None for x in v))
+        if tick:
+            t0 = draw(st.sampled_from(tick))
+            spec["tree"]["algos"] = spec["tree"]["algos"] + [["WeighSpecified", {"weights": {t0: draw(st.sampled_from([0.0, 0.0, 0.3]))}}], ["Rebalance", {}]]
+            spec["two_step"] = True
+    return spec
+
+
+def known_match(spec, v):
+    """open findings: identified by the way the case fails and the condition computed from the source run"""
+    if v.signature == "c18:replay-values:netted":
+        return "F29-transactions-net-same-date-trades"
+    return None
 
 
 SUBS = {"report": case_report, "replay": case_replay}
@@ -282,4 +300,4 @@ STRATS = {"report": report_spec, "replay": replay_spec}
 
 def shard(ctx):
     run_sub(ctx, "report", report_spec(), lambda s: case_report(ctx, s), ctx.n(1000, 15000))
-    run_sub(ctx, "replay", replay_spec(), lambda s: case_replay(ctx, s), ctx.n(640, 8000))
+    run_sub(ctx, "replay", replay_spec(), lambda s: case_replay(ctx, s), ctx.n(640, 8000), known_match=known_match)
